@@ -46,6 +46,7 @@ func NewReader(r io.Reader) io.ReadCloser {
 		rr.rBuf = br
 	} else {
 		rr.rBuf = bufio.NewReader(r)
+		rr.ownBuf = true
 	}
 	return rr
 }
@@ -57,6 +58,7 @@ type decompressor struct {
 	historyBuffer [2*historySize + lookAhead]uint8
 	r             io.Reader
 	rBuf          *bufio.Reader
+	ownBuf        bool // rBuf was allocated here, it is not the caller's source
 	err           error
 	peekSize      int
 	eof           bool
@@ -67,11 +69,15 @@ func (r *decompressor) Reset(under io.Reader, _ []byte) error {
 	r.r = under
 	if ur, ok := under.(*bufio.Reader); ok {
 		r.rBuf = ur
+		r.ownBuf = false
 	} else {
-		if r.rBuf != nil {
+		// only a buffer allocated here is reused: a caller's bufio.Reader
+		// (the previous source) keeps its data and its underlying reader
+		if r.rBuf != nil && r.ownBuf {
 			r.rBuf.Reset(under)
 		} else {
 			r.rBuf = bufio.NewReader(under)
+			r.ownBuf = true
 		}
 	}
 
